@@ -430,7 +430,49 @@ def registries(repo: Repo, chk: Check, rule: str) -> None:
             chk.ob(rule, Site(cls.mod.rel, cls.qual, cls.node.lineno, f"{cls.name}.{attr} discriminant"), ok, f"{attr} = {val}" if ok else f"{cls.name}.{attr} is {val}, the specification says {expect.get(cls.name)}")
 
 
+# decoders that map a wire value through a *closed* enumeration (no _missing_): a value outside it is a decode error.
+# These are the fields for which that is the format's intent today; any other field decoded through a closed
+# enumeration turns wire values the codec used to carry into errors.   (decoder, enumeration)
+CLOSED_ENUM_SITES = {
+    ("_asn1._read_asn1_header", "TagClass"),
+    ("_asn1._read_asn1_header", "TypeTagNumber"),
+    ("_rpc._bind.ContextResult.unpack", "ContextResultCode"),
+    ("_rpc._pdu.DataRep.unpack", "IntegerRep"),
+    ("_rpc._pdu.DataRep.unpack", "CharacterRep"),
+    ("_rpc._pdu.DataRep.unpack", "FloatingPointRep"),
+    ("_rpc._pdu.PDUHeader.unpack", "PacketType"),
+    ("_rpc._pdu.SecTrailer.unpack", "SecurityProvider"),
+    ("_rpc._pdu.SecTrailer.unpack", "AuthenticationLevel"),
+    ("_rpc._verification.CommandHeader2._unpack", "PacketType"),
+}
+
+
+def closed_enums(repo: Repo, chk: Check, rule: str) -> None:
+    """Every `E(<value>)` with E an IntEnum / Enum of the package without `_missing_` (Flag classes keep unknown bits),
+    in a function of the codec modules, is one of the sites of the table above."""
+    n = 0
+    for f in repo.funcs.values():
+        if not (f.mod.name.startswith("_rpc") or f.mod.name in ("_epm", "_asn1", "_gkdi", "_blob", "_pkcs7")):
+            continue
+        for c in ast.walk(f.node):
+            if not (isinstance(c, ast.Call) and isinstance(c.func, (ast.Name, ast.Attribute)) and len(c.args) == 1 and not c.keywords):
+                continue
+            try:
+                r = repo.resolve(c.func, f.mod)
+            except Exception:
+                r = None
+            if not isinstance(r, Cls) or r.enum_kind() not in ("enum.IntEnum", "enum.Enum"):
+                continue
+            if isinstance(c.args[0], ast.Constant) or any("_missing_" in k.methods for k in r.mro()):
+                continue
+            n += 1
+            ok = (f.qual, r.name) in CLOSED_ENUM_SITES
+            chk.ob(rule, Site.of(f, c), ok, f"{r.name} is closed by design for this field" if ok else f"{f.qual} decodes a wire value through the closed enumeration {r.name} (no _missing_): every value outside its {len(repo.enum_members(r))} members - which the field could carry before - now fails to decode")
+    chk.count("closed enumeration decode sites", n)
+
+
 def open_enums(repo: Repo, chk: Check, rule: str) -> None:
+    closed_enums(repo, chk, rule)
     """An IntEnum that synthesises members for unknown wire values must give them that integer value:
     pack() serialises the member with int.to_bytes (F-ENUM-MISSING)."""
     for cls in repo.classes.values():
